@@ -382,4 +382,13 @@ def handleUnsched : Handler := fun i o => do
   return { model := m, agree := m == o, spec := spec, specModel := true, nontrivial := true,
            tags := [s!"unsched:{thenS}", s!"unsched:{(jstr i "scope").toOption.getD "?"}"] }
 
+
+/-- domain `watcher-late`: cancelled in the middle of a slow paginated LIST, the watcher closes its channel and no further LIST
+page request reaches the server afterwards (every informer call runs under a context that ends with the watcher's) -/
+def handleLate : Handler := fun i o => do
+  let m := Json.mkObj [("panic", false), ("closed", true), ("lateLists", (0 : Nat))]
+  let spec := !(jboolD o "panic" true) && jboolD o "closed" false && (jint o "lateLists").toOption == some 0
+  return { model := m, agree := m == o, spec := spec, specModel := true, nontrivial := true,
+           tags := [s!"late:{(jstr i "scope").toOption.getD "?"}", s!"late:cancelAtPage{(jint i "cancelAt").toOption.getD 0}"] }
+
 end CliUtils.Drv.C16
